@@ -9,7 +9,17 @@ use std::process::Command;
 use vmodel::catalogue;
 use vmodel::Decl;
 
-pub fn rt_decls(_env: &Env, _tier: &str) -> Vec<Decl> {
+pub fn rt_decls(env: &Env, tier: &str) -> Vec<Decl> {
+    let mut decls = rt_decls_catalogue();
+    // seed-dependent random declarations from the same grammar (own id prefix, own shards)
+    let n = if tier == "thorough" { 600 } else { 150 };
+    if std::env::var("VERIF_FILTER").is_err() {
+        decls.extend(catalogue::finalize(vmodel::random::random_decls(env.seed, n), "r"));
+    }
+    decls
+}
+
+fn rt_decls_catalogue() -> Vec<Decl> {
     let mut decls = catalogue::catalogue();
     if let Ok(f) = std::env::var("VERIF_FILTER") {
         // debugging aid: keep only declarations with a tag containing the filter (twin bases are kept with their twins)
@@ -42,7 +52,7 @@ pub struct Built {
 }
 
 /// number of corpus crates built in parallel
-pub const SHARDS: usize = 14;
+pub const SHARDS: usize = 16;
 
 pub fn member_toml(env: &Env, name: &str, nutype_features: &[&str]) -> String {
     let feats: Vec<String> = nutype_features.iter().map(|f| format!("{f:?}")).collect();
@@ -121,13 +131,21 @@ pub fn emit_rt(env: &Env, dir: &Path, name: &str, decls: &[Decl], skip: &BTreeSe
     let shards = shards.min(kept.len().max(1));
     let mut parts: Vec<Vec<Decl>> = vec![vec![]; shards];
     let mut where_is: BTreeMap<String, usize> = BTreeMap::new();
+    // random (seed-dependent) declarations get dedicated shards so that a new seed rebuilds only those
+    let has_random = kept.iter().any(|d| d.id.starts_with('r')) && shards >= 4;
+    let sys_shards = if has_random { shards - 2 } else { shards };
     let mut rr = 0usize;
+    let mut rr_rand = 0usize;
     for d in kept {
         let k = match d.twin_of.as_ref().and_then(|t| where_is.get(t)) {
             Some(k) => *k,
+            None if has_random && d.id.starts_with('r') => {
+                rr_rand += 1;
+                sys_shards + (rr_rand - 1) % 2
+            }
             None => {
                 rr += 1;
-                (rr - 1) % shards
+                (rr - 1) % sys_shards
             }
         };
         where_is.insert(d.id.clone(), k);
